@@ -93,6 +93,10 @@ impl BoxedUint {
     pub(crate) fn set_bit_vartime(&mut self, index: u32, bit_value: bool) {
         let limb_num = (index / Limb::BITS) as usize;
         let index_in_limb = index % Limb::BITS;
+        if limb_num >= self.limbs.len() {
+            // out of range: no bit to set, as in the constant-time `set_bit`
+            return;
+        }
         if bit_value {
             self.limbs[limb_num].0 |= 1 << index_in_limb;
         } else {
